@@ -557,6 +557,56 @@ def r11_external_tables_keep_local_names(ctx, rep):
     c06.r5_externalised_tables(ctx, rep)
 
 
+def r12_inherited_generic_specifics(ctx, rep):
+    """An extending type inherits the generic bindings of its parent as copies whose `bindings` already hold the *parent's* specific
+    bindings (objects, not names).  For the child they must be resolved again by name against the child's own bindings - an
+    overriding `s1` of the child is the one the inherited generic dispatches to.  So the step that replaces an entry of
+    `self.bindings` by the type's own binding of that name cannot be restricted to entries that are still strings."""
+    py = ctx.py
+    fn = py.func("FortranBoundProcedure.correlate")
+    ev = astq.trace(fn)
+    # tables built from the type's own bindings: {b.name.lower(): b for b in self.parent.boundprocs}
+    tables = {t for n in ast.walk(fn) if isinstance(n, ast.Assign) and len(n.targets) == 1 and isinstance(n.targets[0], ast.Name)
+              and any(isinstance(a, ast.Attribute) and a.attr == "boundprocs" for a in ast.walk(n.value))
+              for t in [n.targets[0].id]}
+    def from_own_bindings(v: ast.AST) -> bool:
+        # the stored value is looked up in a table made from the type's own bindings - directly or through locals / a walrus
+        seen, todo = set(), [v]
+        while todo:
+            x = todo.pop()
+            for n in ast.walk(x):
+                if isinstance(n, ast.Attribute) and n.attr == "boundprocs":
+                    return True
+                if isinstance(n, ast.Name) and n.id not in seen:
+                    seen.add(n.id)
+                    if n.id in tables:
+                        return True
+                    todo += [val for _t, val in astq.assignments(fn, n.id) if val is not None]
+                    todo += [w.value for w in ast.walk(fn) if isinstance(w, ast.NamedExpr) and w.target.id == n.id]
+        return False
+    stores = [e for e in ev if e.kind == "assign" and e.target and e.target.startswith("self.bindings[") and e.value is not None
+              and from_own_bindings(e.value)]
+    if not stores:
+        raise AnalysisError("FortranBoundProcedure.correlate: the re-resolution of generic bindings against the type's own bindings was not found")
+
+    def atom(x):
+        if isinstance(x, ast.Call) and call_name(x) == "isinstance" and len(x.args) == 2 and ast.unparse(x.args[1]) == "str":
+            return ("is_name", True)
+        return None
+    ok = any(astq.event_fires(e, atom, {"is_name": False}) is not False for e in stores)
+    rep.ob("FortranBoundProcedure.correlate: inherited specifics are resolved again by name", ok,
+           "entries that are already objects are looked up under their name as well" if ok else
+           f"`{stores[0].text()[:60]}` only runs for entries that are still strings ({stores[0].cond_texts()}): a generic inherited from "
+           f"the parent type keeps the parent's specific bindings, an overriding binding of the extending type is never reached",
+           py.nloc(stores[0].node))
+
+
+def r13_local_modules_first(ctx, rep):
+    """a USE statement names the project's own module before a same-named external / intrinsic one (shared with C16.R3)"""
+    from . import c16
+    c16.r3_local_precedence(ctx, rep)
+
+
 RULES = [
     RuleSpec("C07.R6", r6_block_scope, "block-local declarations stay out of the enclosing scope", floor=4),
     RuleSpec("C07.R7", r7_use_is_complete_when_read, "importers are correlated after their exporters (shared with C06.R3)", floor=5),
@@ -568,5 +618,7 @@ RULES = [
     RuleSpec("C07.R9", r9_inherited_bindings_are_copies, "inherited generic bindings do not share their binding list with the base type", floor=1),
     RuleSpec("C07.R8", r8_tables_not_shrunk, "scope tables are only extended", floor=1),
     RuleSpec("C07.R10", r10_tables_read_by_key, "scope tables are read by key, never searched by entity name", floor=1),
+    RuleSpec("C07.R12", r12_inherited_generic_specifics, "the specifics of an inherited generic are resolved in the extending type", floor=1),
+    RuleSpec("C07.R13", r13_local_modules_first, "USE association prefers the project's own module (shared with C16.R3)", floor=1),
     RuleSpec("C07.R11", r11_external_tables_keep_local_names, "external modules export under their local names (shared with C06.R5)", floor=2),
 ]
